@@ -26,7 +26,7 @@ type Anchors struct {
 	ParserFam map[*types.Named]bool
 	// Deferred: why the function anchors could not be resolved ("" = resolved);
 	// raised when a rule that needs them runs
-	Deferred string
+	Deferred  string
 	LexerFam  map[*types.Named]bool
 	SynErrT   *types.Named
 	JMESPathT *types.Named
